@@ -53,13 +53,20 @@ namespace occa {
     occa::scope getMapArrayScope(const baseFunction &fn) const {
       const int arrayLength = (int) length();
 
-      const int safeTileSize = std::min(
-        std::max(1, tileSize),
-        arrayLength
+      // Keep the tile size and iteration count positive for empty arrays / ranges
+      const int safeTileSize = std::max(
+        1,
+        std::min(
+          std::max(1, tileSize),
+          arrayLength
+        )
       );
-      const int safeTileIterations = std::min(
-        std::max(1, tileIterations),
-        (arrayLength + safeTileSize - 1) / safeTileSize
+      const int safeTileIterations = std::max(
+        1,
+        std::min(
+          std::max(1, tileIterations),
+          (arrayLength + safeTileSize - 1) / safeTileSize
+        )
       );
 
       std::string tileForLoop;
